@@ -663,7 +663,12 @@ func c09DKG(g *gen.G) {
 			orig = g.Pick("origIn", n)
 		}
 		var data []byte
-		switch g.Int("payloadKind", 0, 7) {
+		switch g.Int("payloadKind", 0, 8) {
+		case 8: // a bare tag byte, or a tag and one more byte: the shortest payloads every parser branch has to survive
+			data = []byte{byte(g.Int("bareTag", 0, 4))}
+			if g.Bool("oneMore") {
+				data = append(data, byte(g.Int("second", 0, 255)))
+			}
 		case 6: // a well-formed complaint answer (valid scalar) naming a participant in range
 			data = append([]byte{sim.TagAnswer, byte(g.Pick("answerFor", n))}, scalarBytes(big.NewInt(int64(1+g.Int("answerVal", 0, 1000))))...)
 		case 7: // a well-formed complaint against a participant in range
@@ -701,12 +706,27 @@ func c09DKG(g *gen.G) {
 			_ = inst.NextTimeout()
 		case 2:
 			_, _, _, _ = inst.End()
-		case 3, 4, 5:
-			_ = inst.HandleBroadcastMsg(orig, data)
-		case 6, 7:
-			_ = inst.HandlePrivateMsg(orig, data)
-		case 8:
-			_ = inst.ForceDisqualify(orig)
+		case 3, 4, 5, 6, 7, 8:
+			running := inst.Running()
+			var err error
+			what := ""
+			switch {
+			case act <= 5:
+				err, what = inst.HandleBroadcastMsg(orig, data), "HandleBroadcastMsg"
+			case act <= 7:
+				err, what = inst.HandlePrivateMsg(orig, data), "HandlePrivateMsg"
+			default:
+				err, what = inst.ForceDisqualify(orig), "ForceDisqualify"
+			}
+			// invalid input is reported through the documented typed errors
+			switch {
+			case !running && !crypto.IsDKGInvalidStateTransitionError(err):
+				g.Fatalf("%v %s(%d, …) on an instance that is not running returned %v, a state-transition error is documented", proto, what, orig, err)
+			case running && (orig < 0 || orig >= n) && !crypto.IsInvalidInputsError(err):
+				g.Fatalf("%v %s(%d, …) with an origin outside [0, %d) on a running instance returned %v, an invalid-inputs error is documented", proto, what, orig, n, err)
+			case running && orig >= 0 && orig < n && err != nil:
+				g.Fatalf("%v %s(%d, %x) on a running instance returned %v", proto, what, orig, data, err)
+			}
 		default:
 			_ = inst.Running()
 			_ = inst.Size()
